@@ -643,6 +643,161 @@ def check_from_string(case):
     return dict(nt=bool(damaged) and len(expected) > 0, cls=cls)
 
 
+# ------------------------------------------------------------------ histories (one Tle object)
+
+
+H_OPS = ["orbit", "mutate", "mutate", "mutate", "from_orbit", "str", "from_string", "copy_mutate"]
+H_MUT = ["e", "i", "M", "n", "array", "bstar", "ndot", "element_nb", "revolutions", "name", "norad_id",
+         "cospar_id", "date", "form", "frame"]
+
+
+@st.composite
+def hist_case(draw):
+    """One canonical TLE, 3-12 operations on the ONE Tle object built from it.  The plan comes from a
+    single uniform draw (3 decimal digits per step) so that Hypothesis' copying of one step's draws
+    over another's cannot make all steps alike."""
+    f = draw(gt.fields(canonical=True, for_from_string=True))  # the name must not read as a comment line
+    nops = draw(st.integers(3, 12))
+    plan = draw(gt.uniform_int(0, 10**48 - 1))
+    ops = []
+    for k in range(nops):
+        r = plan // 10 ** (4 * k) % 10**4
+        ops.append(dict(op=H_OPS[r % 8], what=H_MUT[r // 8 % 15], k=r // 120 % 8,
+                        val=draw(st.integers(1, 999))))
+    return dict(tle=f, ops=ops)
+
+
+def _orbit_snapshot(orb):
+    import numpy as np
+
+    dt = orb.date.datetime - MJD_T0
+    return (tuple(float(x) for x in np.asarray(orb.base, float)), (dt.days, dt.seconds, dt.microseconds),
+            str(orb.date.scale), orb.form.name, orb.frame.name, orb.bstar, orb.ndot, orb.ndotdot, orb.element_nb,
+            orb.revolutions, orb.name, orb.cospar_id, orb.norad_id, orb.type)
+
+
+def check_history(case):
+    """The Tle object is built once; every orbit() result joins a pool; pooled orbits are edited in
+    place (the normal way to prepare the next element set).  After EVERY operation orbit() is called
+    again and its result must be a fresh object (not `is`, no shared buffer, no shared metadata dict
+    with any earlier result), equal bit for bit to the first result as it was when handed out, and
+    Tle.from_orbit() of it must give back the TLE's own text; the Tle's attributes, .text and
+    str() stay what they were."""
+    import numpy as np
+    from beyond.dates import Date
+    from beyond.io.tle import Tle
+
+    f = case["tle"]
+    text = tf.format_text(f)
+    l1, l2 = tf.format_lines(f)
+    tle = Tle(text)
+    summary0 = _parse_summary(tle)
+    pool, edited = [], []
+    first = {}
+    labels = set()
+
+    def hand_out(step):
+        orb = tle.orbit()
+        for k, old in enumerate(pool):
+            if orb is old:
+                raise Violation("history:same-object", f"step {step}: orbit() returned the object it had returned before "
+                                f"(call {k})")
+            if np.shares_memory(np.asarray(orb.base), np.asarray(old.base)):
+                raise Violation("history:shared-buffer", f"step {step}: orbit() shares its array with the result of call {k}")
+            if orb._data is old._data:
+                raise Violation("history:shared-metadata", f"step {step}: orbit() shares its metadata dict with call {k}")
+        snap = _orbit_snapshot(orb)
+        if not first:
+            first["snap"] = snap
+        elif snap != first["snap"]:
+            diff = [k for k, (a, b) in enumerate(zip(snap, first["snap"])) if a != b]
+            raise Violation("history:orbit-changed", f"step {step} ({case['ops'][step]['op'] if step >= 0 else 'start'}): "
+                            f"orbit() no longer returns what it returned first (field {diff[0]}: {snap[diff[0]]!r} "
+                            f"instead of {first['snap'][diff[0]]!r})")
+        out = str(Tle.from_orbit(orb))
+        d = text_diff(text, out)
+        if d:
+            raise Violation(f"history:rewrite-{d[0]}", f"step {step}: Tle.from_orbit(tle.orbit()) is not the TLE's text: {d[1]}")
+        pool.append(orb)
+        edited.append(False)
+
+    def tle_untouched(step):
+        if _parse_summary(tle) != summary0 or tle.text != f"{l1}\n{l2}" or str(tle) != text:
+            raise Violation("history:tle-changed", f"step {step}: the Tle object itself changed "
+                            f"({_parse_summary(tle)} / {tle.text!r})")
+
+    hand_out(-1)
+    for step, op in enumerate(case["ops"]):
+        name = op["op"]
+        labels.add(f"op:{name}")
+        k = op["k"] % len(pool)
+        orb = pool[k]
+        if name in ("mutate", "copy_mutate"):
+            if name == "copy_mutate":
+                orb = orb.copy()  # an edit of a copy must of course not matter either
+            else:
+                edited[k] = True
+            what, v = op["what"], op["val"]
+            labels.add(f"edit:{what}")
+            native = orb.form.name == "tle"
+            if what in ("e", "i", "M", "n") and native:
+                setattr(orb, what, float(getattr(orb, what)) * (1 + v / 1000.0) + v * 1e-6)
+            elif what == "array" or what in ("e", "i", "M", "n"):
+                orb[:] = np.asarray(orb.base, float) * (1 + v / 1000.0)
+            elif what in ("bstar", "ndot"):
+                setattr(orb, what, v * 1e-7)
+            elif what in ("element_nb", "revolutions", "norad_id"):
+                setattr(orb, what, (getattr(orb, what) + v) % 9999)
+            elif what == "name":
+                orb.name = f"EDITED {v}"
+            elif what == "cospar_id":
+                orb.cospar_id = f"19{60 + v % 40}-{v % 999 + 1:03d}ZZ"
+            elif what == "date":
+                orb.date = orb.date + _dt.timedelta(seconds=v)
+            elif what in ("form", "frame"):
+                # in-place conversions are only a stimulus here (C01/C02 judge them): an edited orbit
+                # may have left the domain of the conversion
+                try:
+                    if what == "form":
+                        orb.form = "keplerian_mean" if native else "tle"
+                    elif float(np.asarray(orb.copy(form="tle").base)[2]) < 0.95:
+                        orb.frame = "EME2000" if orb.frame.name == "TEME" else "TEME"
+                except Exception:
+                    pass
+        elif name == "from_orbit":
+            if not edited[k]:
+                d = text_diff(text, str(Tle.from_orbit(orb)))
+                if d:
+                    raise Violation(f"history:rewrite-{d[0]}", f"step {step}: an orbit nobody edited no longer gives the "
+                                    f"TLE's text: {d[1]}")
+            elif orb.form.name == "tle" and orb.frame.name == "TEME":
+                # an edited orbit must be written as it is NOW (writer clause, checked on e and the counters)
+                try:
+                    t2 = Tle.from_orbit(orb)
+                except ValueError:
+                    t2 = None  # edited out of what a TLE can hold
+                if t2 is not None:
+                    p = tf.parse_lines(*t2.text.split("\n"))
+                    want_e = float(orb.e)
+                    if abs(float(p["ecc"]) - want_e) > 0.5000001e-7 and want_e < 0.99999995:
+                        raise Violation("history:stale-write", f"step {step}: from_orbit wrote e = {float(p['ecc'])!r} for an "
+                                        f"orbit whose e is {want_e!r}")
+                    if p["elnum"] != orb.element_nb or p["rev"] != orb.revolutions:
+                        raise Violation("history:stale-write", f"step {step}: from_orbit wrote element/revolution numbers "
+                                        f"{p['elnum']}/{p['rev']}, the orbit has {orb.element_nb}/{orb.revolutions}")
+        elif name == "from_string" and not (f.get("name") or "").startswith("#"):
+            again = list(Tle.from_string(text + "\n"))
+            if len(again) != 1 or _parse_summary(again[0]) != summary0:
+                raise Violation("history:from_string", f"step {step}: from_string of the same text gives "
+                                f"{[_parse_summary(t) for t in again]}")
+        elif name == "str":
+            tle_untouched(step)
+        # invariants after every step
+        tle_untouched(step)
+        hand_out(step)
+    return dict(nt=any(edited), cls=sorted(labels) + gt.classes(f)[:2])
+
+
 # ------------------------------------------------------------------ fuzz (atheris, thorough tier)
 
 FUZZ_RUNS = 500000
@@ -762,6 +917,10 @@ FACETS = [
     Facet("from_string", lambda s, t: fs_case(), check_from_string, setup=_eop,
           rule="at least one damaged line and one valid entry in the text",
           quick=(8, 250), thorough=(16, 3000)),
+    Facet("history", lambda s, t: hist_case(), check_history, setup=_eop,
+          rule="at least one previously returned orbit was edited in place; after every operation orbit() must be a "
+               "fresh object, equal to the first result bit for bit, and write back to the TLE's own text",
+          quick=(8, 150), thorough=(16, 2500)),
     Facet("fuzz", check=check_fuzz, runner=fuzz_runner, setup=_eop,
           rule="the edited text is well-formed for the strict column parser (checked against it and re-written)",
           quick=(1, 0), thorough=(4, FUZZ_RUNS)),
